@@ -317,12 +317,8 @@ namespace avel {
         }
 
         AVEL_FINL Vector& operator/=(Vector rhs) {
+            content /= decay(rhs);
             return *this;
-            /*
-            auto results = div(*this, rhs);
-            content = results.quot.content;
-            return *this;
-            */
         }
 
         AVEL_FINL Vector& operator%=(Vector rhs) {
